@@ -154,6 +154,7 @@ where
         if self.done {
             return;
         }
+        let mut errs = 0;
         loop {
             match self.fr.as_mut().next().now_or_never() {
                 None => break, // Pending
@@ -166,7 +167,16 @@ where
                     Common::Data(b) if self.datagrams => ev.item(Common::Udp(b, None)),
                     other => ev.item(other),
                 },
-                Some(Some(Err(_))) => ev.0.push("err".into()),
+                Some(Some(Err(_))) => {
+                    ev.0.push("err".into());
+                    errs += 1;
+                    if errs > 200 {
+                        // a stream that reports an error on every poll never ends: whoever forwards it spins
+                        ev.0.push("err-forever".into());
+                        self.done = true;
+                        break;
+                    }
+                }
             }
         }
     }
@@ -242,6 +252,7 @@ where
         if self.done {
             return;
         }
+        let mut errs = 0;
         loop {
             match self.ws.as_mut().next().now_or_never() {
                 None => break,
@@ -251,7 +262,15 @@ where
                     break;
                 }
                 Some(Some(Ok(item))) => ev.item(item.into()),
-                Some(Some(Err(_))) => ev.0.push("err".into()),
+                Some(Some(Err(_))) => {
+                    ev.0.push("err".into());
+                    errs += 1;
+                    if errs > 200 {
+                        ev.0.push("err-forever".into());
+                        self.done = true;
+                        break;
+                    }
+                }
             }
         }
     }
@@ -283,10 +302,12 @@ where
         use futures::SinkExt;
         let mut ev = Events::default();
         rt.block_on(async {
-            if let Some(mut peer) = self.peer.take() {
-                let _ = peer.close().await;
+            if let Some(peer) = self.peer.take() {
+                // the peer goes away without a closing handshake (the adapter under test is polled only by `drain`, so
+                // waiting for its answer to a close frame would wait forever)
                 drop(peer);
             }
+            tokio::time::sleep(std::time::Duration::from_millis(5)).await;
             self.drain(&mut ev);
         });
         ev
